@@ -387,6 +387,11 @@ def run(ctx: core.Ctx) -> None:
         ctx.sample({"hall_yarbrough": [{k: p.get(k) for k in ("p_r", "T_r", "z_hy", "z_code", "z_published_root")}
                                        for p in hy["points"][:: max(1, len(hy["points"]) // 4)]]})
 
+    # per-call statement of the property under concurrent use (Reentrant.tla): the same calls from several threads at once
+    from ..drivers import threads  # noqa: PLC0415
+
+    threads.clause(ctx, ['gas_z'])
+
 
 def replay(ctx: core.Ctx, obj: dict) -> None:
     """Re-run the isotherm (or table) of a reported point on the current tree and judge it again."""
